@@ -277,7 +277,7 @@ Enabled(s, a) ==
     [] a.op = "Consume" -> a.r \in PoolSet /\ s.cons[a.r].st = "run"
     [] a.op = "OutReqHook" -> a.ext \in {"none", "malformed"} /\ a.r \notin PoolSet
     [] a.op = "InReq" -> IF a.ext \in {"req", "resp"}
-                         THEN s.nreq < Len(Pool) /\ a.r = NextReq(s) /\ ~Locked(s, Implied(a.p, a.ext, a.tid))
+                         THEN s.nreq + (IF s.opn.active THEN 1 ELSE 0) < Len(Pool) /\ a.r = NextReq(s) /\ ~Locked(s, Implied(a.p, a.ext, a.tid))
                          ELSE a.r \notin PoolSet
     [] a.op = "ReqCancelled" -> ~(Mapped(s, a.r) /\ Locked(s, Owner(s, a.r)))
     [] a.op \in Callbacks -> TRUE
